@@ -938,10 +938,10 @@ theorem step_inv {Pat : Type} (E : Env Pat) (c : NCfg Pat) (s : Sess) (hist : Li
         exact ⟨ig, h1, h2⟩
       · intro hf
         rw [hooks_append, hhk hf]
-        simp [hf, hooks]
+        cases hcl : (noteEv s Ev.connErr).client.closed <;> simp [hf, hooks, hcl]
       · intro b
         rw [sentTo_append, (hq b).1]
-        cases s.flow <;> simp [sentTo]
+        cases hcl : (noteEv s Ev.connErr).client.closed <;> cases s.flow <;> simp [sentTo, hcl]
     | dataC d =>
       unfold Inv; simp only [nph, hp, nout, nq]
       refine ⟨hst', by simpa [nflow] using hhk, ?_⟩
